@@ -42,5 +42,8 @@ G_DelDuringVictims  == ~(apc = "victims" /\ \E c \in Clients : pc[c] = "del_send
 G_SetDuringSweepDel == ~(apc \in {"sweep_poldel", "sweep_storedel"} /\ \E c \in Clients : pc[c] = "set_send" /\ creg[c].h = areg.item.h)
 G_SetDuringClear    == ~(\E c \in Clients : pc[c] \in {"clr_store", "clr_fin"} /\ (\A d \in Clients \ {c} : pc[d] = "idle")
                           /\ ops <= 3 /\ \E i \in DOMAIN buf : buf[i].t = "new")
+G_ExactFitAfterShrink == ~(lowered /\ apc = "new_set" /\ used = maxCost /\ areg.victims = <<>>)
+G_ReAddAfterZeroSweep == ~(areg.item.h \in swept0 /\ areg.item.cost > 0 /\
+                            ((apc = "new_set" /\ areg.victims # <<>>) \/ apc = "new_rej"))
 G_RaiseCost         == ~(raised /\ used > maxCost)
 =============================================================================
